@@ -135,6 +135,7 @@ type c08Runner struct {
 	shrinks  int
 	shrunk   map[string]int
 	noShrink bool
+	hung     bool // a save never returned: stop (leaked goroutines hold fs locks and throttle slots only of their own fs, but each further hang costs minutes)
 }
 
 // report records the outcome of one executed world.
@@ -179,7 +180,12 @@ func (r *c08Runner) report(w *c08World, cfg c08Cfg, nops int, prop string) {
 		if r.shrunk == nil {
 			r.shrunk = map[string]int{}
 		}
-		if !r.noShrink && r.shrunk[v.sig] < 1 && r.shrinks < 6 {
+		if w.hung {
+			// a witness that never returns cannot be minimised by re-running it
+			// (each attempt would block for minutes); after the first such
+			// verdict this process also stops running further sequences
+			r.hung = true
+		} else if !r.noShrink && r.shrunk[v.sig] < 1 && r.shrinks < 6 {
 			r.shrunk[v.sig]++
 			r.shrinks++
 			min := c08Shrink(cfg, ops, v.sig, r.baseG, 400)
